@@ -94,6 +94,15 @@ def generate(tier, seed):
         # the same questions again right after a clear
         ops += [("H", "a", "b", None), ("C",), ("H", "a", "b", None), ("H", "a", "c", None)]
         cases.append(case(rnd.randint(2, 4), ops, all_queries(NAMES, [None, "d1"])))
+    # a chain closed link by link between names that are all KNOWN already, the end-to-end question asked after every addition:
+    # the answer must change the moment the missing link arrives (an answer remembered from before must not survive it)
+    for perm in itertools.permutations([("a", "b"), ("b", "c"), ("c", "d")]):
+        for d in (None, "d1"):
+            ops = [("A", "a", "x", d), ("A", "b", "y", d), ("A", "c", "z", d), ("A", "d", "w", d), ("H", "a", "d", d)]
+            for (x, y) in perm:
+                ops += [("A", x, y, d), ("H", "a", "d", d), ("H", "b", "d", d)]
+            ops += [("D", "b", "c", d), ("H", "a", "d", d), ("A", "b", "c", d), ("H", "a", "d", d)]
+            cases.append(case(5, ops, all_queries(["a", "d"], [d])))
     # names that are prefixes / suffixes of one another, and domain names that continue them: (a, ba), (ab, a), (aba, "") all
     # CONCATENATE to the same text - every (name1, name2, domain) question is its own question, in whatever order they are asked
     namesx = ["a", "ab", "b", "ba", "aba"]
